@@ -487,6 +487,9 @@ def parse_env(src, coerce=False):
             env = dip.parse()
         data = env.data(Format.TYPE)
         tags = {n.name: (list(n.tags) if getattr(n, "tags", None) else []) for n in env.nodes}
+        # the NODE's declared data type (keyword: width, signedness) — the property speaks of the node's type;
+        # the value object normally repeats it, but a value assigned in a second step is built separately
+        decl = {n.name: (getattr(n, "unsigned", None), getattr(n, "precision", None)) for n in env.nodes}
     except Exception:
         return None
     ps = []
@@ -496,9 +499,11 @@ def parse_env(src, coerce=False):
         elif isinstance(p, StringType):
             kind, bits = "str", 0
         elif isinstance(p, IntegerType):
-            kind, bits = ("uint" if p.unsigned else "int"), int(p.precision)
+            du, dp = decl.get(name, (None, None))
+            kind, bits = ("uint" if (p.unsigned if du is None else du) else "int"), int(p.precision if dp is None else dp)
         elif isinstance(p, FloatType):
-            kind, bits = "float", int(p.precision)
+            dp = decl.get(name, (None, None))[1]
+            kind, bits = "float", int(p.precision if dp is None else dp)
         else:
             return None
         value = p.value
